@@ -17,6 +17,7 @@ LEVELS = {
     "C15": "model_checking",
     "C10": "model_checking",
     "C16": "model_checking",
+    "C20": "model_checking",
 }
 
 # property -> vlib module with run_property(prop, tier, report)
@@ -24,6 +25,7 @@ RUNNERS = {
     "C15": "names",
     "C10": "plug",
     "C16": "det",
+    "C20": "registry",
 }
 
 
